@@ -297,7 +297,7 @@ def opParse (j : Json) : Json :=
   match j.getObjVal? "dump" with
   | .error e => jerr e
   | .ok d => match parse d with
-    | .ok e => Json.arr #[dump e, jstr (render e), jb (wf e)]
+    | .ok e => Json.arr #[dump e, jstr (render e)]
     | .error e => jerr e
 
 def handle (j : Json) : Json :=
